@@ -225,12 +225,22 @@ def add_locality(reqs, rng, p=0.03):
     state carried from one call to the next) returns the relative's answer for the original."""
     M = O.M
     out = []
+    cur = O.DEFAULT_MODE
     for r in reqs:
         out.append(r)
+        if r.startswith("mode "):
+            cur = r[5:].strip()
+            continue
         if rng.random() >= p:
             continue
         toks = r.split(" ")
         if toks[0] not in LOCALITY_OPS:
+            continue
+        if rng.random() < 0.12:
+            # the same request again under another thread rounding mode, and once more under the original one
+            # (state that survives a mode change)
+            other = rng.choice([m for m in O.MODES if m != cur])
+            out += ["mode " + other, r, "mode " + cur, r]
             continue
         idx = [i for i, t in enumerate(toks) if _DTOK.match(t)]
         if not idx:
@@ -284,8 +294,6 @@ def _worker(args):
             if not reqs:
                 break
             reqs = list(reqs)
-            if getattr(prop, "LOCALITY", True):
-                reqs = add_locality(reqs, rng)
             if getattr(prop, "MODE_INDEPENDENT", False):
                 # the result must not depend on the thread's rounding mode: run one half of the batch under
                 # RoundHalfEven and the other half under another mode (rotating over shards and batches)
@@ -297,6 +305,8 @@ def _worker(args):
                     reqs = ["mode " + other] + reqs[:h] + ["mode " + O.DEFAULT_MODE] + reqs[h:]
                 else:
                     reqs = reqs[:h] + ["mode " + other] + reqs[h:] + ["mode " + O.DEFAULT_MODE]
+            if getattr(prop, "LOCALITY", True):
+                reqs = add_locality(reqs, rng)
             reqs = reqs + ["counts"]
             reqfile = os.path.join(wdir, "s%d.req" % shard)
             with open(reqfile, "w") as f:
